@@ -136,13 +136,13 @@ def imgHdr : P ImgHdr := do
       let d ← bool
       pure (some (a, b, c, d))
     else pure none
-  -- optional: `icc ANS PLANMODE <hex profile>` embeds the profile through the ICC command encoder
+  -- optional: `icc CODER PLANMODE <hex profile>` (CODER: 0 prefix, 1 ANS, 2/3 + LZ77, 4/5 + over-long LZ77 distances) embeds the profile through the ICC command encoder
   let icc ← (do
     let st ← get
     match st with
     | "icc" :: _ => do
       let _ ← tok
-      let ans ← bool
+      let ans ← nat
       let pm ← nat
       let hx ← tok
       match bytesOfHex hx with
